@@ -69,6 +69,7 @@ let table : (string * (sexp -> sexp)) list = [
   ("C01", run_C01);
   ("C02", run_C02);
   ("C05", run_C05);
+  ("C03", run_C03);
 ]
 
 let () =
